@@ -189,6 +189,7 @@ class ScriptedProcess:
 class ScriptedStdModel:
     def __init__(self, dimension):
         self._d = dimension
+        self.models = [ScriptedStdModel(1) for _ in range(dimension)] if dimension > 1 else []
 
     def dimension(self):
         return self._d
